@@ -39,7 +39,32 @@ fn main() {
         }
         _ => Tier::Quick,
     };
-    let ctx = Ctx::new(&prop, tier);
+    let mut ctx = Ctx::new(&prop, tier);
+    match args.get(2).map(|s| s.as_str()) {
+        Some("--only") => {
+            let ord = args.get(3).and_then(|s| s.parse().ok()).unwrap_or(u64::MAX);
+            let idx = args.get(4).and_then(|s| s.parse().ok()).unwrap_or(u64::MAX);
+            ctx.mode = core::Mode::Only { ord, idx };
+            ctx.known.clear();
+        }
+        Some("--describe-crash") => {
+            let p = core::crash::crash_file(&ctx.root, &prop);
+            let txt = std::fs::read_to_string(&p).unwrap_or_default();
+            let nums: Vec<u64> = txt.split_whitespace().filter_map(|t| t.parse().ok()).collect();
+            if nums.is_empty() {
+                println!("VIOLATION property={} replay={}", prop, p.display());
+                println!("  the explorer process died without a crash record (killed by a signal other than SIGABRT)");
+                std::process::exit(1);
+            }
+            ctx.mode = core::Mode::DescribeCrash { ord: nums[0], idxs: nums[1..].to_vec() };
+            ctx.cap("run ended early: the explorer process aborted; only the in-flight cases were re-examined");
+        }
+        _ => {
+            core::crash::install(&ctx.root, &prop);
+            // replays of earlier runs are stale
+            let _ = std::fs::remove_dir_all(ctx.root.join("replays").join(&prop));
+        }
+    }
     runner(&ctx);
     std::process::exit(ctx.finish());
 }
